@@ -85,6 +85,7 @@ func c12RecConfig(accessor bool, log *c12Log) jsonpath.Config {
 			return r, err
 		})
 	}
+	AddDecoys(&c)
 	if accessor {
 		c.SetAccessorMode()
 	}
